@@ -18,7 +18,7 @@ def run(ctx):
     ctx.assumptions += fam.COMMON_ASSUMPTIONS
     dv = ("forged", "other", "short")
     if ctx.quick:
-        fam.mc_holds(ctx, "MC full layer, 1 damaged component", readers=1, numsegs=1, ranges="R_all1", dmg=1, dvals=dv, badsegs=0)
+        fam.mc_holds(ctx, "MC full layer, 1 damaged component", readers=1, numsegs=1, ranges="R_all1", dmg=1, dvals=dv, badsegs=1)
     else:
         fam.mc_holds(ctx, "MC full layer, 2 damaged components", readers=1, numsegs=1, ranges="R_all1", dmg=2, dvals=dv, badsegs=1)
         fam.mc_holds(ctx, "MC full layer, 2 segments, lying instance", readers=1, numsegs=2, ranges="R_all2", dmg=1, dvals=dv,
@@ -27,4 +27,4 @@ def run(ctx):
                 readers=1, numsegs=1, ranges="R_all1", dmg=1, dvals=("forged",), validate="NoChecksBlk", liveness=False)
     fam.mc_demo(ctx, "MC ciphertext-hash check switched off", ["C02_OnlyGenuine"],
                 readers=1, numsegs=1, ranges="R_all1", badsegs=1, validate="NoChecksSeg", liveness=False)
-    fam.run_traces(ctx, "C02", "c02", 160 if ctx.quick else 3000)
+    fam.run_traces(ctx, "C02", "c02", 300 if ctx.quick else 3000)
